@@ -209,7 +209,18 @@ func (prop) Run(ctx *fw.Ctx, i int) fw.Result {
 				if pf == nil {
 					continue
 				}
+				if f.List != nil && pf.GetList() != nil {
+					// `name(a..b) <: T` is modelled as a list whose element carries the declaration's location
+					pf = pf.GetList().GetType()
+				}
 				check("field "+t.Name+"."+f.Name, "field", key{"field", f.ID, ""}, pf.SourceContexts, pf.SourceContext) //nolint
+				if nested := app.Types[t.Name+"."+f.Name].GetTuple().GetAttrDefs(); len(f.Inplace) > 0 && nested != nil {
+					for _, g := range f.Inplace {
+						if pg := nested[g.Name]; pg != nil {
+							check("field "+t.Name+"."+f.Name+"."+g.Name, "field:inplace", key{"field", g.ID, ""}, pg.SourceContexts, pg.SourceContext) //nolint
+						}
+					}
+				}
 				for _, an := range f.Annos {
 					if at := pf.Attrs[an.Name]; at != nil {
 						check("annotation @"+an.Name+" of field "+f.Name, "anno:field", key{"anno", f.ID, an.Name}, at.SourceContexts, at.SourceContext) //nolint
